@@ -365,10 +365,10 @@ class C11(PropCheck):
         """units of the target and of the parameters: the surrogate's predictive variance goes with yscale**2
         (or, without hyper-parameter optimisation, with GPy's unit default kernel variance), its gradients with 1/xscale"""
         if legacy:
-            sc = dict(yscale=1.0, xscale=1.0, tkind='log', fit_opt=False, opt_iters=5)
+            sc = dict(yscale=1.0, xscale=1.0, tkind='log', fit_opt=False, opt_iters=5, legacy_units=True)
         else:
             sc = dict(yscale=r.choice(self.YSCALES), xscale=r.choice(self.XSCALES), tkind=r.choice(['log', 'raw', 'raw']),
-                      fit_opt=r.random() < 0.6, opt_iters=r.choice([5, 5, 30]))
+                      fit_opt=r.random() < 0.6, opt_iters=r.choice([5, 5, 30]), legacy_units=False)
         self.bump('yscale=%g' % sc['yscale'])
         self.bump('xscale=%g' % sc['xscale'])
         self.bump('target=%s' % sc['tkind'])
@@ -624,7 +624,10 @@ class C11(PropCheck):
                     exp = ref(np.array(x, dtype=float, copy=True), t)
                     stale['calls'] += 1
                     g, e = np.asarray(got, dtype=float).reshape(-1), np.asarray(exp, dtype=float).reshape(-1)
-                    if g.shape != e.shape or not np.all(np.abs(g - e) <= 1e-9 * (1 + np.abs(e))):
+                    # (a degenerate surrogate answers nan to both objects: the same answer, not a stale one)
+                    if np.any(np.isnan(e)):
+                        stale['nan'] = stale.get('nan', 0) + 1
+                    if g.shape != e.shape or not np.all((np.abs(g - e) <= 1e-9 * (1 + np.abs(e))) | (np.isnan(g) & np.isnan(e))):
                         stale['bad'] += 1
                         if stale['first'] is None:
                             stale['first'] = dict(method=name, x=np.asarray(x, dtype=float).reshape(-1).tolist(), t=t,
@@ -736,8 +739,8 @@ class C11(PropCheck):
         out = dict(beta=beta, mean=mean, var=var, gm=gm.tolist(), gv=gv.tolist(), val=val, grad=grad.tolist(),
                    fd_lcb=[p_['fd'] for p_ in probes], fd_probes=probes, fd_verdicts=verdicts,
                    sqrt=[[beta * var, float(np.sqrt(beta * var))], [beta / var, float(np.sqrt(beta / var))]])
-        if case.get('yscale', 1.0) == 1.0 and case.get('xscale', 1.0) == 1.0:
-            # MaxVar: sampled at the unit scale only (its tolerance is not scale-free)
+        if case.get('legacy_units', True):
+            # MaxVar: sampled in the wave-1 setting only (log target of order one, unit box scale, no first optimisation: its tolerance is not scale-free)
             h = 1e-5
 
             def fd(f):
